@@ -100,7 +100,11 @@ fn hdr(ty: u8, ver: u16, len: u16) -> TlsRecordHeader {
 
 /// one-shot parse used by the model (the real record-payload parser, see C03)
 fn oneshot(data: &[u8], h: &TlsRecordHeader) -> Res {
-    summarize(&parse_tls_record_with_header(data, h)).0
+    // a panic of the one-shot parser is C01/C03 business; the model then predicts "some error"
+    match crate::ctx::guard(|| summarize(&parse_tls_record_with_header(data, h)).0) {
+        Ok(r) => r,
+        Err(_) => Res::Err { failure: true, kind: ErrorKind::Fail },
+    }
 }
 fn is_complete_err(r: &Res) -> bool {
     matches!(r, Res::Err { kind: ErrorKind::Complete, .. })
